@@ -42,6 +42,17 @@ pub fn control_tok(c: &Control) -> String {
     format!("{}:{}", b[0], b[1])
 }
 
+pub fn status_tok(s: &ModuleStatus) -> String {
+    format!("{}:{}:{}", hex(s.name.as_bytes()), s.state as u8, match s.error {
+        None => "n".to_string(),
+        Some(ModuleError::InvalidConfiguration) => "0".into(),
+        Some(ModuleError::VersionMismatch) => "1".into(),
+        Some(ModuleError::CommunicationTimeout) => "2".into(),
+        Some(ModuleError::GenericCommunicationError) => "3".into(),
+        Some(ModuleError::IOError) => "4".into(),
+    })
+}
+
 pub fn engine_tok(e: &Engine) -> String {
     format!("{}:{}:{}:{}", e.driver_demand, e.actual_engine, e.rpm, e.state as u8)
 }
